@@ -4,6 +4,7 @@ check of every property that has a function in the touched package(s), revert.  
 machinery.  Usage: run_neutral.py [ids...]"""
 import json, os, re, subprocess, sys, time
 root = '/verif/neutral'
+REPO = os.environ.get('NEUTRAL_REPO', '/repo')  # a scratch worktree may stand in for /repo (parallel runs)
 lst = subprocess.run(['/verif/bin/govc', 'list'], capture_output=True, text=True).stdout
 pkgprops = {}
 funcs_of = {}
@@ -26,8 +27,8 @@ for nid in ids:
         if not f.endswith('.diff'):
             continue
         path = os.path.join(d, f)
-        assert subprocess.run(['git', '-C', '/repo', 'status', '--porcelain', '--untracked-files=no'], capture_output=True, text=True).stdout.strip() == '', 'repo dirty'
-        r = subprocess.run(['git', '-C', '/repo', 'apply', path], capture_output=True, text=True)
+        assert subprocess.run(['git', '-C', REPO, 'status', '--porcelain', '--untracked-files=no'], capture_output=True, text=True).stdout.strip() == '', 'repo dirty'
+        r = subprocess.run(['git', '-C', REPO, 'apply', path], capture_output=True, text=True)
         if r.returncode != 0:
             print(nid, f, 'DOES NOT APPLY', r.stderr[:200]); continue
         text = open(path).read()
@@ -44,13 +45,24 @@ for nid in ids:
         out = {}
         try:
             for p in props:
-                rr = subprocess.run(['/verif/bin/govc', 'check', '--property', p, '--tier', 'quick', '--no-evidence'], capture_output=True, text=True, timeout=1500)
+                rr = subprocess.run(['/verif/bin/govc', 'check', '--repo', REPO, '--property', p, '--tier', 'quick', '--no-evidence'], capture_output=True, text=True, timeout=1500)
                 failed = re.findall(r'^\s+FAILED (\S+)', rr.stdout, re.M)
                 eng = re.findall(r'^ENGINE-ERROR: (.*)', rr.stdout, re.M)
                 out[p] = {'exit': rr.returncode, 'failed': failed, 'engine': eng[:2]}
         finally:
-            subprocess.run(['git', '-C', '/repo', 'checkout', '--', '.'])
+            subprocess.run(['git', '-C', REPO, 'checkout', '--', '.'])
         bad = {p: v for p, v in out.items() if v['exit'] != 0}
         print(nid, f, 'props', props, 'FALSE-ALARM' if bad else 'quiet', json.dumps(bad)[:600])
         results.append({'id': nid, 'diff': f, 'properties': props, 'alarms': bad})
-json.dump(results, open('/verif/neutral/results.json', 'w'), indent=1)
+# merge into the stored results (keyed by corpus id and diff)
+outp = os.environ.get('NEUTRAL_OUT', '/verif/neutral/results.json')
+old = []
+if os.path.exists(outp):
+    try:
+        old = json.load(open(outp))
+    except Exception:
+        old = []
+done = {(r['id'], r['diff']) for r in results}
+merged = [r for r in old if (r['id'], r['diff']) not in done] + results
+merged.sort(key=lambda r: (r['id'], r['diff']))
+json.dump(merged, open(outp, 'w'), indent=1)
